@@ -2549,13 +2549,20 @@ impl<'a, const HAS_CR: bool> Parser<'a, HAS_CR> {
 
         // Parse the key
         let key_end = match self.peek() {
+            // A quoted key may be separated from its `:` by white space
+            // (`- 'key' : value`), as in `parse_mapping_entry`'s block form;
+            // the key's text still ends at the closing quote.
             Some(b'"') => {
                 self.parse_double_quoted()?;
-                self.pos
+                let end = self.pos;
+                self.skip_inline_whitespace();
+                end
             }
             Some(b'\'') => {
                 self.parse_single_quoted()?;
-                self.pos
+                let end = self.pos;
+                self.skip_inline_whitespace();
+                end
             }
             // Alias as key (`- *a: v`), sharing the block mapping's site.
             Some(b'*') => self.record_key_alias()?,
